@@ -20,6 +20,8 @@ pub struct Profile {
     pub share_pct: u32,
     pub max_events: usize,
     pub shape: ShapeMode,
+    /// only integer coefficients and learning rates (cross-build runs: everything exact in f32)
+    pub integer_only: bool,
 }
 
 #[derive(Clone, Copy, Debug, PartialEq)]
@@ -33,7 +35,7 @@ pub enum ShapeMode {
 pub const ACTORS: [&str; 9] = ["builder", "differ", "graduser", "lifetime", "flagger", "optimizer", "retirer", "refuser", "trainer"];
 
 pub fn profile(name: &str) -> Profile {
-    let base = Profile { name: "C01", w: [50, 14, 4, 10, 6, 0, 2, 1, 0], custom_pct: 20, reent_pct: 10, bcast_pct: 30, smooth_pct: 30, share_pct: 50, max_events: 60, shape: ShapeMode::Mixed };
+    let base = Profile { name: "C01", w: [50, 14, 4, 10, 6, 0, 2, 1, 0], custom_pct: 20, reent_pct: 10, bcast_pct: 30, smooth_pct: 30, share_pct: 50, max_events: 60, shape: ShapeMode::Mixed, integer_only: false };
     match name {
         "C01" => base,
         "C03" => Profile { name: "C03", w: [55, 16, 3, 6, 2, 3, 1, 1, 0], custom_pct: 5, reent_pct: 0, bcast_pct: 85, smooth_pct: 0, share_pct: 75, ..base },
@@ -456,7 +458,7 @@ impl Gen {
                     0 => {
                         let n = 1 + self.rng.weighted(&[20, 45, 25, 10]);
                         let args: Vec<Slot> = (0..n).map(|i| if i == 0 { x } else { *self.rng.pick(&same) }).collect();
-                        let coef: Vec<f64> = (0..n).map(|_| *self.rng.pick(&[1.0, 1.0, -1.0, 2.0, 0.5, -2.0])).collect();
+                        let coef: Vec<f64> = (0..n).map(|_| *self.rng.pick(&[1.0, 1.0, -1.0, 2.0, 0.5, -2.0])).map(|c| if self.p.integer_only && c == 0.5 { 3.0 } else { c }).collect();
                         (CustomKind::Lin, args, coef)
                     }
                     1 => (CustomKind::Prod2, vec![x, *self.rng.pick(&same)], vec![]),
@@ -578,7 +580,14 @@ impl Gen {
             }
         }
         let lr = match self.regime {
-            Regime::Int => *self.rng.pick(&[1.0, 2.0, 0.5, 0.25, 0.0]),
+            Regime::Int => {
+                let l = *self.rng.pick(&[1.0, 2.0, 0.5, 0.25, 0.0]);
+                if self.p.integer_only && l < 1.0 && l > 0.0 {
+                    1.0
+                } else {
+                    l
+                }
+            }
             Regime::Smooth => *self.rng.pick(&[0.5, 0.125, 0.0625, 1.0, 0.0]),
         };
         vec![Ev::Update { slots: uniq, lr }]
